@@ -33,10 +33,23 @@ func runJob(args []string, fn func(j *Job, u *JobUnit) error) error {
 	}
 	for i := range j.Units {
 		if err := fn(j, &j.Units[i]); err != nil {
+			var rp *RegisterPanic
+			if errors.As(err, &rp) {
+				// the generated Register<Service>Server itself panics: a fact about the code under test, not about the harness
+				Emit(&Rec{K: "viol", Cell: j.Units[i].Cell + ",service=" + rp.Service, Symptom: "server_registration_panics", Detail: clipS(rp.Msg)})
+				continue
+			}
 			return fmt.Errorf("unit %s: %w", j.Units[i].Name, err)
 		}
 	}
 	return nil
+}
+
+// RegisterPanic reports that the generated server registration function panicked (e.g. net/http refusing a pattern).
+type RegisterPanic struct{ Service, Msg string }
+
+func (e *RegisterPanic) Error() string {
+	return "Register" + e.Service + "Server panicked: " + e.Msg
 }
 
 // Rec is one JSONL record sent to the orchestrator.
@@ -252,14 +265,22 @@ func newFixture(unit string, hook Hook) (*fixture, error) {
 		if s.Register == nil {
 			continue
 		}
-		if err := s.Register(func(ctx context.Context, method string, req proto.Message) (proto.Message, error) {
-			f.mu.Lock()
-			f.calls = append(f.calls, method)
-			f.seen = append(f.seen, proto.Clone(req))
-			h := f.handler
-			f.mu.Unlock()
-			return h(ctx, method, req)
-		}, f.mux, hook); err != nil {
+		var pan any
+		err := func() (err error) {
+			defer func() { pan = recover() }()
+			return s.Register(func(ctx context.Context, method string, req proto.Message) (proto.Message, error) {
+				f.mu.Lock()
+				f.calls = append(f.calls, method)
+				f.seen = append(f.seen, proto.Clone(req))
+				h := f.handler
+				f.mu.Unlock()
+				return h(ctx, method, req)
+			}, f.mux, hook)
+		}()
+		if pan != nil {
+			return nil, &RegisterPanic{Service: s.Name, Msg: fmt.Sprint(pan)}
+		}
+		if err != nil {
 			return nil, fmt.Errorf("register %s: %w", s.Name, err)
 		}
 	}
